@@ -1,7 +1,8 @@
-(* C16 — lemmas (collected): ProofsSearch (classification, merge, page), ProofsFetch (streams: soundness),
-   ProofsAlign (streams: completeness for well-behaved streams). *)
-From Coq Require Import List Bool Arith NArith Lia.
-From C16 Require Export Model CaseDefs ProofsSearch ProofsFetch ProofsAlign.
+(* C16 — lemmas (collected): ProofsSearch (classification, merge of IDs, page), ProofsRest (total,
+   histogram, soft errors), ProofsAggs (aggregations), ProofsApi (API answer, replica orders),
+   ProofsFetch / ProofsAlign (streams: soundness / completeness), ProofsDocs (Documents). *)
+From Coq Require Import List Bool Arith NArith ZArith Lia.
+From C16 Require Export Model CaseDefs ProofsSearch ProofsFetch ProofsAlign ProofsRest ProofsAggs ProofsApi ProofsDocs.
 Import ListNotations.
 
 Lemma hot_refuses_spec : forall mature oldest from,
@@ -9,4 +10,43 @@ Lemma hot_refuses_spec : forall mature oldest from,
 Proof.
   intros. unfold hot_refuses, earlier_than_oldest.
   rewrite andb_true_iff, orb_true_iff, N.eqb_eq, N.ltb_lt. tauto.
+Qed.
+
+(* the rest of the merged QPR is described by exactly the answers [xs] of the shards [qs] *)
+Definition rest_desc (itv : N) (naggs : nat) (qs : list (src * list id)) (xs : list extra) (r : extra) : Prop :=
+  let U := flat_map snd qs in
+  x_total r = total_spec U xs
+  /\ (forall k, hlookup (x_hist r) k = hist_spec itv U xs k)
+  /\ x_errs r = errs_spec xs
+  /\ length (x_aggs r) = naggs
+  /\ forall j, j < naggs ->
+       snd (nth j (x_aggs r) e0) = zsum (map (fun x => snd (nth j (x_aggs x) e0)) xs)
+       /\ forall b,
+          match bin_parts j b xs with
+          | [] => blookup (fst (nth j (x_aggs r) e0)) b = None
+          | ps => exists h, blookup (fst (nth j (x_aggs r) e0)) b = Some h /\ sc_desc ps h
+          end.
+
+Lemma merge_rest_desc : forall sort, sort_ok sort -> forall qs xs rev itv naggs,
+  rest_desc itv naggs qs xs (merge_rest sort qs xs rev itv naggs).
+Proof.
+  intros sort Hs qs xs rev itv naggs. unfold rest_desc.
+  split; [apply total_ok; auto|]. split; [intros; apply hist_ok; auto|]. split; [apply errs_ok|].
+  apply (aggs_ok sort qs xs rev itv naggs).
+Qed.
+
+Lemma search_whole : forall sort, sort_ok sort ->
+  forall p1 p2 hot hotread cold off size rev itv naggs,
+  match verdict_of p1 p2 hot hotread cold, search sort p1 p2 hot hotread cold off size rev itv naggs with
+  | VErr k, SErr k' => k = k'
+  | VOk p qs xs, SOk p' out r =>
+      p = p' /\ page_ok rev (flat_map snd qs) off size (map fst out) = true /\ sources_ok qs out = true
+      /\ rest_desc itv naggs qs xs r
+  | _, _ => False
+  end.
+Proof.
+  intros sort Hs p1 p2 hot hotread cold off size rev itv naggs.
+  pose proof (search_ok sort Hs p1 p2 hot hotread cold off size rev itv naggs) as H.
+  destruct (verdict_of p1 p2 hot hotread cold), (search sort p1 p2 hot hotread cold off size rev itv naggs); auto.
+  destruct H as [A [B [C D]]]. subst r. repeat split; auto; apply merge_rest_desc; auto.
 Qed.
